@@ -11,6 +11,7 @@ import numpy as _np
 from . import terms as T
 from .sym import Sym, sym_int, sym_float
 from .facade_np import NP, lift_array
+from .facade_rng import RNG, TruncNorm
 
 CHI_MODULES = [
     'chi._error_models', 'chi._log_pdfs', 'chi._population_models',
@@ -120,13 +121,62 @@ def _erf_any(x):
     return erf(x)
 
 
+class _RandomProxy(object):
+    """np.random inside chi; the state behind it is replaced at the start of
+    every (re-)execution of a case (harness ``B.new_rng()``)."""
+    target = None
+
+    def __getattr__(self, name):
+        if _RandomProxy.target is None:
+            raise RuntimeError('np.random used without an RNG stub state')
+        return getattr(_RandomProxy.target, name)
+
+
+class _TruncProxy(object):
+    target = None
+
+    def __getattr__(self, name):
+        return getattr(_TruncProxy.target, name)
+
+
+def new_rng():
+    r = RNG()
+    _RandomProxy.target = r
+    _TruncProxy.target = TruncNorm(r)
+    r.truncnorm = _TruncProxy.target
+    return r
+
+
+def _norm_pdf(x):
+    from .facade_np import _elementwise
+    import scipy.stats
+    f = _elementwise(
+        lambda s: (-(s * s) / 2).exp() / Sym(T.fn('sqrt', T.mul(
+            T.TWO, T.PI))), scipy.stats.norm.pdf)
+    return f(x)
+
+
+def _norm_cdf(x):
+    from .facade_np import _elementwise
+    import scipy.stats
+    f = _elementwise(
+        lambda s: (Sym(T.fn('erf', (s / Sym(T.fn('sqrt', T.TWO))).t)) + 1)
+        / 2, scipy.stats.norm.cdf)
+    return f(x)
+
+
+class _Norm(object):
+    pdf = staticmethod(_norm_pdf)
+    cdf = staticmethod(_norm_cdf)
+
+
 def install(spec=None):
     """spec keys: random (facade for np.random), myokit, extra (dict
     module -> {name: object}), pi_symbolic."""
     spec = spec or {}
     if _installed[0]:
         uninstall()
-    np_f = NP(random=spec.get('random'),
+    np_f = NP(random=spec.get('random', _RandomProxy()),
               pi_symbolic=spec.get('pi_symbolic', True))
     import pints
     pints_f = _Delegate(pints, vector=pints_vector)
@@ -146,6 +196,10 @@ def install(spec=None):
             binds['math'] = math_f
         if hasattr(mod, 'erf'):
             binds['erf'] = _erf_any
+        if hasattr(mod, 'truncnorm'):
+            binds['truncnorm'] = _TruncProxy()
+        if hasattr(mod, 'norm'):
+            binds['norm'] = _Norm()
         if name in ('chi._mechanistic_models', 'chi._predictive_models',
                     'chi._log_pdfs'):
             binds['float'] = FloatF
